@@ -434,6 +434,35 @@ def WellFormedM (g : MFunc) : Prop :=
   (∃ N, (g.params ++ g.instrs.flatMap (·.typedResults)).map (·.1) = List.range N) ∧
   ScopedM g.params g.instrs
 
+/-! ## a validator for dead-code elimination on one block
+
+The pass model of `SsaPass` is not defined on `MInstr` (see docs/C01_frontmem.md).  Instead of a model of the pass, a
+CHECKER of its result: `dceOK [] before after` accepts when `after` is `before` with some instructions deleted, each
+deleted instruction has side-effect class `none` (`Iconst`, the binary / unary / compare / select instructions, `Load`
+and the extending loads — `sideEffectNone` in `ssa/instructions.go`), and no KEPT instruction uses the result of a
+deleted one.  Accepted pairs have the same outcome (`Wz.C01.frontmem_dce_validated`); the harness runs the checker
+on the REAL output before / after the REAL `RunPasses()`.  (A function in which the real passes also resolve aliases —
+`passNopInstElimination` removed a shift by a multiple of the width — is NOT accepted: operands were renamed.) -/
+
+def MInstr.results : MInstr → List Val
+  | .base i => i.results
+  | .extload _ r _ _ _ => [r]
+
+/-- side-effect class `none` -/
+def MInstr.removable : MInstr → Bool
+  | .base (.iconst ..) | .base (.bin ..) | .base (.icmp ..) | .base (.select ..) | .base (.un ..)
+  | .base (.load ..) | .extload .. => true
+  | _ => false
+
+/-- `dead`: the results of the instructions deleted so far -/
+def dceOK (dead : List Val) : List MInstr → List MInstr → Bool
+  | [], [] => true
+  | [], _ :: _ => false
+  | i :: is, [] => i.removable && dceOK (i.results ++ dead) is []
+  | i :: is, j :: js =>
+    if i = j ∧ i.operands.all (fun o => !dead.contains o) then dceOK dead is js
+    else i.removable && dceOK (i.results ++ dead) is (j :: js)
+
 /-- the SSA outcome `o` refines the outcome `sp` of the reference semantics (outcome and final linear memory): the
 same result values, or the trap code of the same trap kind; no calls; and the final flat memory still embeds the
 final linear memory (so its part `[base, base+len)` IS the specification's final memory, and the module context is
